@@ -60,7 +60,7 @@ impl Property for C10 {
             knobs: Knobs { max_nodes: 24, max_ops: 6, variant, ..Default::default() },
         };
         match tier {
-            Tier::Quick => vec![mk("names", 40_000, 0), mk("repair", 12_000, 1)],
+            Tier::Quick => vec![mk("names", 300_000, 0), mk("repair", 100_000, 1)],
             Tier::Thorough => vec![mk("names", 1_000_000, 0), mk("repair", 400_000, 1)],
         }
     }
